@@ -680,6 +680,11 @@ func runCase(id int, in *CaseIn) *CaseOut {
 					res = 0
 				}
 			}
+			// a single call rewrites row s upwards and row e downwards; within one Scan the two can cancel out, so the
+			// index is also compared with a fresh Build after every single call
+			if fresh, _, e4 := w.build(); e4 == nil && !sameRecord(fresh, idx) {
+				out.Mutated = true
+			}
 		}
 		out.MayBe = append(out.MayBe, res)
 		if res == 0 {
@@ -1097,6 +1102,13 @@ func genSpecial(r *gen.Rand, base *CaseIn) *CaseIn {
 	return &in
 }
 
+func workDir() string {
+	if d := os.Getenv("VERIF_WORK"); d != "" {
+		return d
+	}
+	return os.TempDir()
+}
+
 func main() {
 	if len(os.Args) >= 3 && os.Args[1] == "replay" {
 		for i, f := range os.Args[2:] {
@@ -1104,6 +1116,23 @@ func main() {
 			if err != nil {
 				fmt.Fprintln(os.Stderr, err)
 				os.Exit(2)
+			}
+			var kind struct {
+				In struct {
+					Kind string `json:"kind"`
+				} `json:"in"`
+			}
+			_ = json.Unmarshal(b, &kind)
+			if kind.In.Kind == "bloom" {
+				var bh struct {
+					In *BloomIn `json:"in"`
+				}
+				if err := json.Unmarshal(b, &bh); err != nil || bh.In == nil {
+					fmt.Fprintln(os.Stderr, "bad case file", f, err)
+					os.Exit(2)
+				}
+				gen.Emit(runBloomCase(i, bh.In, workDir()))
+				continue
 			}
 			var holder struct {
 				In *CaseIn `json:"in"`
@@ -1119,6 +1148,13 @@ func main() {
 	n := 300
 	if len(os.Args) >= 3 {
 		n, _ = strconv.Atoi(os.Args[2])
+	}
+	if len(os.Args) >= 2 && os.Args[1] == "bloom" {
+		r := gen.FromEnv(2020)
+		for i := 0; i < n; i++ {
+			gen.Emit(runBloomCase(i, genBloomCase(r), workDir()))
+		}
+		return
 	}
 	r := gen.FromEnv(20)
 	for i := 0; i < n; i++ {
